@@ -90,6 +90,11 @@ def numeric_series(rfmod, rs, k):
     scale = float(rs.choice([0.05, 0.5, 2.0, 6.0]))          # small tip to > pi per sample
     r1 = (rs.randn(n1) + 1j * rs.randn(n1)) * scale
     r2 = (rs.randn(n2) + 1j * rs.randn(n2)) * scale
+    if k % 3 == 0 and n1 > 2 and n2 > 2:
+        # samples that are exactly zero: gaps inside the pulse, after non-zero samples, and trailing zero padding
+        r1[rs.randint(1, n1, size=max(1, n1 // 3))] = 0
+        r2[-max(1, n2 // 4):] = 0
+        r2[n2 // 2] = 0
     r12 = np.concatenate([r1, r2])
     x = rs.randn(5) * 3
     g1, g2 = rs.randn(n1), rs.randn(n2)
